@@ -55,15 +55,19 @@ MkCb(t, k, n, i) == [t |-> t, k |-> k, n |-> n, i |-> i, s |-> ""]
 EvVar(rec) == IF rec.var = 0 THEN Pts[rec.p].ev ELSE rec.var
 HasTime(p, v) == p.ty # "os" /\ ~(p.ty = "bi" /\ v = 1)
 EvSize(rec) == IF rec.var = 0 THEN Pts[rec.p].esz ELSE IF Pts[rec.p].ty = "bi" /\ rec.var = 1 THEN 3 ELSE Pts[rec.p].esz
+\* points whose configured static variation is the packed one (sv = 1) have their flags coupled to the value in the
+\* scenarios: value 1 comes with ONLINE|RESTART (3), value 0 plainly ONLINE (1).  StaticVariation::promote: the packed
+\* format is used only for plainly ONLINE values, otherwise the flagged variation (2) - decided from the frozen value
+FlagsOf(p, val) == IF p.ty = "os" THEN -1 ELSE IF p.sv = 1 /\ val = "1" THEN 3 ELSE 1
 EvObj(rec) ==
     LET p == Pts[rec.p]
     IN [g |-> p.eg, v |-> EvVar(rec), ix |-> p.ix, ty |-> p.ty, ev |-> TRUE, val |-> rec.val,
-        fl |-> IF p.ty = "os" THEN -1 ELSE 1, tm |-> IF HasTime(p, EvVar(rec)) THEN rec.tm ELSE "",
+        fl |-> FlagsOf(p, rec.val), tm |-> IF HasTime(p, EvVar(rec)) THEN rec.tm ELSE "",
         tq |-> "", st |-> -1]
 StObj(pn, val) ==
     LET p == Pts[pn]
-    IN [g |-> p.sg, v |-> p.sv, ix |-> p.ix, ty |-> p.ty, ev |-> FALSE, val |-> val,
-        fl |-> IF p.ty = "os" THEN -1 ELSE 1, tm |-> "", tq |-> "", st |-> -1]
+    IN [g |-> p.sg, v |-> IF p.sv = 1 /\ FlagsOf(p, val) # 1 THEN 2 ELSE p.sv, ix |-> p.ix, ty |-> p.ty, ev |-> FALSE, val |-> val,
+        fl |-> FlagsOf(p, val), tm |-> "", tq |-> "", st |-> -1]
 
 -----------------------------------------------------------------------------
 (* initial state *)
